@@ -1029,6 +1029,27 @@ fn fixed_scenarios(st: &mut Stats) {
             }),
         }
     }
+    // the bare root import `/` means the project root's exports.sy from every depth, also from folders that have
+    // an exports.sy of their own
+    {
+        let mut f6 = Files::new();
+        f6.insert("exports.sy".into(), "scale :: 10\ntitle :: \"root\"\n".into());
+        f6.insert("geo/exports.sy".into(), "use shapes\n\nscale :: 3\n\narea :: fn n: int -> int do\n    ret shapes.side(n) * scale\nend\n".into());
+        f6.insert("geo/shapes.sy".into(), "use / as project\n\nside :: fn n: int -> int do\n    ret n * project.scale\nend\n".into());
+        f6.insert("geo/deep/leaf.sy".into(), "use / as top\nuse /geo/ as g\nfrom / use title\n\nboth :: fn -> int do\n    top.scale + g.scale\nend\n\nname :: fn -> str do\n    title\nend\n".into());
+        f6.insert("main.sy".into(), "use geo/\nuse / as project\nuse geo/deep/leaf\n\nstart :: fn do\n    print(geo.area(2))\n    print(project.scale)\n    print(leaf.both())\n    print(leaf.name())\nend\n".into());
+        let expect: Vec<String> = ["60", "10", "13", "root"].iter().map(|s| s.to_string()).collect();
+        st.count("fixed_scenarios_run");
+        match behaviour(&f6, "main.sy") {
+            Behaviour::Ran { prints, outcome, .. } if prints == expect && outcome == "ok" => st.count("fixed_scenarios_as_expected"),
+            other => st.violation(Violation {
+                signature: "modules:root-import-from-a-sub-folder".into(),
+                hazard: None,
+                case: 0,
+                detail: J::obj().with("expected", J::Arr(expect.iter().map(|s| J::s(s.clone())).collect())).with("behaviour", J::s(format!("{:?}", other).chars().take(800).collect::<String>())).with("files", J::Obj(f6.iter().map(|(k, v)| (k.clone(), J::s(v.clone()))).collect())),
+            }),
+        }
+    }
     // two imports may not bind one name to different modules (the second one must not be dropped silently)
     files.insert("net/utils.sy".into(), "name :: \"net\"\n".into());
     files.insert("ui/utils.sy".into(), "name :: \"ui\"\n".into());
